@@ -1,11 +1,24 @@
 import Bmc.Driver.Prim
+import Bmc.Driver.DecBasic
 open Bmc.Driver
+
+def decTables : List (String × DecFn) := decTableBasic
+
+def evalDec (args : List String) : String :=
+  match args with
+  | [layer, prevS, dataS, tailS] =>
+    match decTables.lookup layer, parseHex prevS, parseHex dataS, parseHex tailS with
+    | some f, some prev, some data, some tail => f prev data tail
+    | none, _, _, _ => "no-such-layer"
+    | _, _, _, _ => "bad-op"
+  | _ => "bad-op"
 
 /-- one op per line: `<id> <class> <kind> <args…>`; the answer is `<id> <model outcome>` -/
 def step (line : String) : String :=
   match (line.trimAscii.toString.splitOn " ").filter (· ≠ "") with
   | id :: _cls :: "prim" :: fn :: args => s!"{id} {evalPrim fn args}"
   | id :: _cls :: "str" :: args => s!"{id} {evalStr args}"
+  | id :: _cls :: "dec" :: args => s!"{id} {evalDec args}"
   | id :: _ => s!"{id} bad-op"
   | [] => ""
 
